@@ -372,7 +372,11 @@ def setup():
             if f.endswith(".tla"):
                 shutil.copyfile(os.path.join(SPEC, f), os.path.join(d, f))
         bad = 0
+        # modules for Apalache (EXTENDS Apalache) get a stub of its operators: tla-sany only has TLC's standard modules
+        open(os.path.join(d, "Apalache.tla"), "w").write("---- MODULE Apalache ----\nGen(n) == {}\n====\n")
         for f in sorted(os.listdir(d)):
+            if f == "Apalache.tla":
+                continue
             p = subprocess.run(["tla-sany", f], cwd=d, capture_output=True, text=True)
             ok = p.returncode == 0 and "error" not in (p.stdout + p.stderr).lower().replace("semantic errors: 0", "")
             if "Semantic errors" in p.stdout or "Parsing or semantic analysis failed" in p.stdout or p.returncode != 0:
